@@ -15,17 +15,24 @@ theorem C11_defaults_ssi :
     ∧ rpDefaults ssiClasses [("order_in", .str "find_min"), ("rtol", .float 1 20), ("sel_freq", .none)] = true := by
   decide
 
+/-- the parameter is at the callee's literal default at that call site: left unbound, or bound to exactly that literal
+    (writing a default out is the same call) -/
+def atCalleeDefault (cls method callee param : String) : Bool :=
+  match site cls method callee with
+  | some s => s.dflt.contains param
+  | none => false
+
 /-- **C11 defaults, pLSCF.** Seen from pLSCF and pLSCF_MS: `mpe(sel_freq, order="find_min", rtol=0.05)`,
     `mpe_from_plot(freqlim=None, rtol=0.05)`, run parameters `order_in = "find_min"`, `rtol = 0.05`.  The routine's own
-    defaults are `order="find_min"`, `Lab=None`, `deltaf=0.05`, `rtol=0.01`; neither class method passes `deltaf`, so
-    the aggregation band of an extraction through the classes is always the routine's `0.05`. -/
+    defaults are `order="find_min"`, `Lab=None`, `deltaf=0.05`, `rtol=0.01`; at both class call sites `deltaf` is at that default (unbound, or
+    written out as the same literal), so the aggregation band of an extraction through the classes is always the routine's `0.05`. -/
 theorem C11_defaults_plscf :
     methodDefaults plscfClasses "mpe" [("sel_freq", .required), ("order", .str "find_min"), ("rtol", .float 1 20)] = true
     ∧ methodDefaults plscfClasses "mpe_from_plot" [("freqlim", .none), ("rtol", .float 1 20)] = true
     ∧ funcDefaults "plscf.pLSCF_mpe" [("order", .str "find_min"), ("Lab", .none), ("deltaf", .float 1 20), ("rtol", .float 1 100)] = true
     ∧ rpDefaults plscfClasses [("order_in", .str "find_min"), ("rtol", .float 1 20), ("sel_freq", .none)] = true
-    ∧ arg "pLSCF" "mpe" "plscf.pLSCF_mpe" "deltaf" = none
-    ∧ arg "pLSCF" "mpe_from_plot" "plscf.pLSCF_mpe" "deltaf" = none
+    ∧ atCalleeDefault "pLSCF" "mpe" "plscf.pLSCF_mpe" "deltaf" = true
+    ∧ atCalleeDefault "pLSCF" "mpe_from_plot" "plscf.pLSCF_mpe" "deltaf" = true
     ∧ allResolve plscfClasses "mpe" "pLSCF" = true ∧ allResolve plscfClasses "mpe_from_plot" "pLSCF" = true := by
   decide
 
